@@ -155,11 +155,41 @@ class InterpBase:
         if c is not None:
             cache[tid] = (t, c)
             return c
-        # split: known classes individually, "host" as one bucket
-        host = t >= z3.IntVal(HOST_CLASS_BASE)
+        # split: "host-like" (unknown classes, and builtin classes the engine has no structural model for:
+        # exception classes, object, bytes, generator ...) as one bucket, modelled classes individually
+        host = z3.Or(t >= z3.IntVal(HOST_CLASS_BASE), *[t == z3.IntVal(k) for k in self.hostlike_ids()])
         if self.ctx.branch(host, label + ":host?"):
             return None
-        return self.ctx.enum_int(t, cap=16, label=label)
+        return self.ctx.enum_int(t, cap=24, label=label)
+
+    def hostlike_ids(self):
+        hl = getattr(self.table, "_hostlike", None)
+        if hl is None:
+            t = self.table
+            hl = [k for k in t.known_ids() if k < 200 and t.issub(k, t.id("BaseException"))]
+            hl += [t.id(n) for n in ("object", "bytes", "generator", "type", "module", "method")]
+            t._hostlike = hl
+        return hl
+
+    def class_candidates(self, v):
+        """Feasible class ids of a ref value, without committing (None when unbounded / host possible)."""
+        t = z3.simplify(z3.Select(self.st.typeof, Val.r(v)))
+        if z3.is_int_value(t):
+            return [t.as_long()]
+        cache = self.st.ghost.setdefault("_cand_cache", {})
+        tid = t.get_id()
+        if tid in cache and cache[tid][0].eq(t):
+            return cache[tid][1]
+        vals = self.ctx.possible_ints(t, cap=10)
+        if vals is not None and any(k >= HOST_CLASS_BASE for k in vals):
+            vals = None
+        cache[tid] = (t, vals)
+        return vals
+
+    def not_agent_object(self, v):
+        """The path condition implies v (a ref) is not an instance of an agent class."""
+        t = z3.Select(self.st.typeof, Val.r(v))
+        return self.ctx.must(z3.Or(t < 200, t >= HOST_CLASS_BASE))
 
     def is_host_class(self, cid):
         return cid is None or cid >= HOST_CLASS_BASE
@@ -377,19 +407,24 @@ class InterpBase:
             return v.arg(0)
         s = StrOf(v)
         self.ctx.assume(z3.Implies(Val.is_VStr(v), s == Val.s(v)))
-        self.ctx.assume(z3.Implies(z3.And(Val.is_VInt(v), Val.i(v) >= 0), s == z3.IntToStr(Val.i(v))))
-        self.ctx.assume(z3.Implies(z3.And(Val.is_VInt(v), Val.i(v) < 0),
-                                   s == z3.Concat(z3.StringVal("-"), z3.IntToStr(-Val.i(v)))))
+        if z3.is_app(v) and v.decl().name() == "VInt":
+            # digits only when the value is syntactically an int (int.to.str is costly for the solver)
+            i = v.arg(0)
+            self.ctx.assume(z3.Implies(i >= 0, s == z3.IntToStr(i)))
+            self.ctx.assume(z3.Implies(i < 0, s == z3.Concat(z3.StringVal("-"), z3.IntToStr(-i))))
         self.ctx.assume(z3.Implies(Val.is_VNone(v), s == z3.StringVal("None")))
         self.ctx.assume(z3.Implies(Val.is_VBool(v), s == z3.If(Val.b(v), z3.StringVal("True"), z3.StringVal("False"))))
         return s
 
     def to_str_checked(self, v, node, what="str"):
         """str(v) as Python would run it: primitives are total; objects may run host __str__."""
-        t = self.tag(v, "str-arg")
-        if t != "ref":
+        v = z3.simplify(v)
+        if not self.ctx.branch(Val.is_VRef(v), "str-arg-is-object"):
             return self.str_of(v)
-        cid = self.class_of(v, "str-arg-class")
+        if self.not_agent_object(v):
+            cid = None
+        else:
+            cid = self.class_of(v, "str-arg-class")
         if self.is_host_class(cid) or cid in self._containers():
             # containers call repr() of their elements, which may be host objects
             res = self.host_op(what, v, node)
